@@ -8,6 +8,7 @@
 //!   hsim list
 mod actors;
 mod analysis;
+mod calib;
 mod sgen;
 mod census;
 mod interp;
@@ -412,6 +413,10 @@ fn main() {
         "show" => show_cmd(rest),
         "hashes" => hashes_cmd(rest),
         "outcome" => outcome_cmd(rest),
+        "calib" => {
+            calib::run();
+            0
+        }
         "list" => {
             for p in props::all() {
                 println!(
